@@ -519,7 +519,16 @@ func (ctx *RenderContext) CallFunction(name string, args []interface{}) (interfa
 		if fn, ok := ctx.env.functions[name]; ok {
 			// Special case for parent() function which needs access to the RenderContext
 			if name == "parent" {
-				return fn(args...)
+				// The extension returns a function that needs this context; its
+				// result is the rendered parent block, a value like any other
+				result, err := fn(args...)
+				if err != nil {
+					return nil, err
+				}
+				if parentFunc, ok := result.(func(*RenderContext) (interface{}, error)); ok {
+					return parentFunc(ctx)
+				}
+				return result, nil
 			}
 
 			// Regular function call
